@@ -87,6 +87,32 @@ def _num(s):
         return float(s)
 
 
+def two_runs(seed=0):
+    """The same stopper over two runs with clear_history() in between must behave in the second run as a fresh one."""
+    from qucumber.callbacks import EarlyStopping, MetricEvaluator
+    fails = []
+    for vals, p, tol in (([3, 2, 1, 1, 1, 1, 1], 2, 0.01), ([5, 4, 4, 4, 3, 3, 3, 3], 3, 0.05), ([1, 1, 1, 1], 1, 0.5)):
+        vals = [float(v) for v in vals]
+        ev = MetricEvaluator(1, {"m": lambda s: 0.0})
+        es = EarlyStopping(1, tol, p, ev, "m", criterion="absolute")
+        stops = []
+        for run in range(2):
+            ev.clear_history()
+            st = _State()
+            stop = None
+            for e, v in enumerate(vals, start=1):
+                ev.past_values.append((e, {"m": v}))
+                es.on_epoch_end(st, e)
+                if st.stop_training:
+                    stop = e
+                    break
+            stops.append(stop)
+        want = oracle(vals, p, tol, "absolute")[1]
+        if stops != [want, want]:
+            fails.append(({"values": vals, "patience": p, "tolerance": tol}, "runs stopped at %s, documented rule says %s in both" % (stops, want)))
+    return fails
+
+
 def replay_model(cfg, model):
     """Run the real on_epoch_end once on the history described by the solver's counter-model."""
     from qucumber.callbacks import EarlyStopping, MetricEvaluator, ObservableEvaluator
@@ -132,14 +158,14 @@ def replay(cfg, model, short):
         r = replay_model(cfg, model)
         if r is not None and r["reproduced"]:
             return {"reproduced": True, "failed_clauses": [("on_epoch_end on the solver's history", str(r))], "solver_model": {k: v for k, v in model.items() if k.startswith("@")}}
-    f = native_check(0, True)
+    f = native_check(0, True) + [(a, b, "same in both runs") for a, b in two_runs(0)]
     if cfg.get("criterion"):
         f = [x for x in f if x[0]["criterion"] == cfg["criterion"]] or f
     return {"reproduced": bool(f), "failed_clauses": [(str(a), "got %s want %s" % (g, w)) for a, g, w in f[:3]], "solver_model": model}
 
 
 def bounded(tier, seed):
-    f = native_check(seed, tier == "quick")
+    f = native_check(seed, tier == "quick") + [(a, b, "same in both runs") for a, b in two_runs(seed)]
     return {"driver": "drivers/C18.native_check", "label": "bounded", "evaluations": (10 if tier == "quick" else 46) * 4 * 4 * 3 * 2, "failures": len(f),
             "bound": "concrete sequences (oscillating, constant, zeros, random) x patience 1,2,3,5 x tolerance 0,0.01,0.2,inf x 3 criteria x period 1,2",
             "first_failures": [(str(a), str(g), str(w)) for a, g, w in f[:3]]}
